@@ -52,7 +52,8 @@ for d in sorted(glob.glob(os.path.join(V, "seeded", "C*"))):
     now = "?"
     if r:
         unit = r[4].strip("^$")
-        where = "" if r[2] == "HEAD" else " (applied to its base commit %s: the site was rewritten by a later fix)" % m.get("base_commit", "")
+        where = {"HEAD": "", "rebased": " (patch re-made on the current code, the site was touched by a later fix)"}.get(
+            r[2], " (applied to its base commit %s: the site was rewritten by a later fix)" % m.get("base_commit", ""))
         now = {"1": "`%s` %s%s" % (m["property"], unit, where), "0": "NOT reported (quick tier)", "2": "inconclusive"}.get(r[3], r[3])
     rows.append("| %s | %s | %s | %s | %s |" % (name, site, summ.replace("|", "/"), first.replace("|", "/"), now))
 head = ("%d changes; %d were reported by the checks as they were when the change arrived, the other %d after the generator "
